@@ -1141,7 +1141,8 @@ Section LoopsH2.
 
   (* the two instances of the write side *)
   Definition XB (o : ostate) (s : st) : Prop := handled s /\ GH o s.
-  Definition XQ (q : treq) (o : ostate) (s : st) : Prop := PendQ o s q /\ QH o s q.
+  Definition XQ (q : treq) (o : ostate) (s : st) : Prop :=
+    PendQ o s q /\ QH o s q /\ (h_b1 (o_v o) = true -> In (entry_of q) (s_inflight s)).
 
   Lemma handled_core : forall (s s' : st), same_core s s' -> handled s -> handled s'.
   Proof.
@@ -1194,16 +1195,16 @@ Section LoopsH2.
 
   Lemma XQ_ready : forall q o (s : st) r s', XQ q o s -> do_ready tp s = (r, s') -> XQ q (o_call lim o (CReady r)) s'.
   Proof.
-    intros q o s r s' (HP & G) H. destruct (do_ready_core tp _ _ _ H) as ((C1 & C2 & C3 & C4 & C5 & C6 & C7 & C8) & F & Q & _).
+    intros q o s r s' (HP & G & Hin) H. destruct (do_ready_core tp _ _ _ H) as ((C1 & C2 & C3 & C4 & C5 & C6 & C7 & C8) & F & Q & _).
     destruct (ocall_flags_ready lim o r) as (V8 & _ & B1 & I & Pn). cbv zeta in *.
-    split; [|eapply QH_ready; eauto].
+    split; [|split; [eapply QH_ready; eauto|rewrite B1, C3; exact Hin]].
     eapply PendQ_frame; eauto; try congruence; try (rewrite C3; auto).
   Qed.
   Lemma XQ_flush : forall q o (s : st) r s', XQ q o s -> do_flush tp s = (r, s') -> XQ q (o_call lim o (CFlush r)) s'.
   Proof.
-    intros q o s r s' (HP & G) H. destruct (do_flush_core tp _ _ _ H) as ((C1 & C2 & C3 & C4 & C5 & C6 & C7 & C8) & F & Q & _).
+    intros q o s r s' (HP & G & Hin) H. destruct (do_flush_core tp _ _ _ H) as ((C1 & C2 & C3 & C4 & C5 & C6 & C7 & C8) & F & Q & _).
     destruct (ocall_flags_flush lim o r) as (V8 & _ & B1 & I & Pn). cbv zeta in *.
-    split; [|eapply QH_flush; eauto].
+    split; [|split; [eapply QH_flush; eauto|rewrite B1, C3; exact Hin]].
     eapply PendQ_frame; eauto; try congruence; try (rewrite C3; auto).
   Qed.
 
@@ -1214,7 +1215,7 @@ Section LoopsH2.
     /\ (forall en r, find_entry (resp_id m) (add_permit (set_respq s rest)) = Some en ->
                      XQ q (o_call lim o (CSend m r)) s2).
   Proof.
-    intros q o s m rest e s2 HI Hce (HP & G) Eq Hnt H.
+    intros q o s m rest e s2 HI Hce (HP & G & HinQ) Eq Hnt H.
     destruct (send_frames _ _ _ _ _ H) as (F1 & F2 & F3 & F4 & F5).
     assert (GG : GH o s) by (intros Hb; destruct (G Hb) as (A & B & _); auto).
     assert (Hheld : h_b1 (o_v o) = true -> held s (resp_id m)).
@@ -1234,6 +1235,12 @@ Section LoopsH2.
       - rewrite B10, A11, B6, A7, B3. repeat split; auto.
         intros k hr' Hk. destruct (A2 k hr' Hk) as (hr & X1 & _ & _ & X4). eauto. }
     destruct Hq2 as (Q2 & C2 & H2).
+    assert (Hin2 : h_b1 (o_v o) = true -> In (entry_of q) (s_inflight s2)).
+    { intros Hb. pose proof (HinQ Hb) as Hin. destruct (G Hb) as (_ & _ & PH).
+      destruct (base_start_send_shape tp _ _ _ _ H) as [(_ & _ & ->)|(en & rr & _ & _ & B1 & _)].
+      - rewrite A4. exact Hin.
+      - rewrite B1, A4. apply in_drop_entry. split; [exact Hin|]. cbn. intros Heq.
+        apply (ph_noq _ _ _ PH). rewrite Heq, Eq. cbn. left. reflexivity. }
     assert (PHstep : forall o', (forall k oi', nth_error (o_incs o') k = Some oi' ->
                         exists oi, nth_error (o_incs o) k = Some oi /\ oi_id oi' = oi_id oi
                                    /\ (is_open (oi_wire oi') = true -> is_open (oi_wire oi) = true)) ->
@@ -1249,7 +1256,7 @@ Section LoopsH2.
       - intros Hin. apply P3. rewrite Eq. cbn. right. exact Hin.
       - exact P4. }
     split.
-    - intros Hn. split.
+    - intros Hn. split; [|split; [|exact Hin2]].
       + eapply PendQ_frame; eauto.
       + intros Hb. destruct (G Hb) as (_ & _ & PH). destruct (GA Hn Hb) as (A' & B'). split; [exact A'|split; [exact B'|]].
         apply (PHstep o); [|exact PH]. intros k oi' Hk. exists oi'. auto.
@@ -1260,7 +1267,7 @@ Section LoopsH2.
                     /\ o_pend (o_call lim o (CSend m r)) = o_pend o).
       { destruct (resp_body m); try exact P7. congruence. }
       destruct P7' as (I & Pn).
-      split.
+      split; [|split; [|rewrite Bb; exact Hin2]].
       + eapply PendQ_frame; eauto.
       + intros Hb. pose proof Hb as Hb0. rewrite Bb in Hb0. destruct (G Hb0) as (_ & _ & PH).
         destruct (GB en r Hen Hb) as (A' & B'). split; [exact A'|split; [exact B'|]].
@@ -1287,7 +1294,7 @@ Section LoopsH2.
 
   Definition rpostH (r : pres treq) (o : ostate) (s : st) : Prop :=
     match r with
-    | PReady q => QH o s q
+    | PReady q => QH o s q /\ (h_b1 (o_v o) = true -> In (entry_of q) (s_inflight s))
     | PEnd | PPending => BH o s /\ o_pend o = None
     | PErr _ => ErrH o s
     | PFuel => True
@@ -1333,13 +1340,13 @@ Section LoopsH2.
     - (* a request was accepted: pump_write, then yield *)
       destruct Post1 as ((HI1 & HP1 & Hce1) & Hin1). cbn [postH] in PostH1.
       destruct (pump_write tp false s1) as [wr s2] eqn:EW.
-      destruct (pump_write_invQ q _ _ _ _ _ HI1 Hce1 Hnt1 (conj HP1 PostH1) EW) as (n2 & X2 & WP & Hnt2 & (HP2 & HQ2')).
+      destruct (pump_write_invQ q _ _ _ _ _ HI1 Hce1 Hnt1 (conj HP1 (conj PostH1 (fun _ => Hin1))) EW) as (n2 & X2 & WP & Hnt2 & (HP2 & HQ2' & Hin2)).
       assert (X02 : ext s s2 (n1 ++ n2)) by (eapply ext_trans; eauto).
       pose proof (QInv_wpost _ _ _ _ _ (conj HI1 (conj HP1 Hce1)) WP) as HQ2.
       destruct wr as [u| |a| |]; injection H as <- <-; exists (n1 ++ n2); rewrite ocs_app;
         (split; [first [exact X02|unfold ext in *; sproj; exact X02]|]).
-      + split; [exact HQ2|split; [exact Hnt2|exact HQ2']].
-      + split; [exact HQ2|split; [exact Hnt2|exact HQ2']].
+      + split; [exact HQ2|split; [exact Hnt2|exact (conj HQ2' Hin2)]].
+      + split; [exact HQ2|split; [exact Hnt2|exact (conj HQ2' Hin2)]].
       + split; [right; exists q, s2; split; [exact HQ2|reflexivity]|]. split; [intros m Hm; apply Hnt2; exact Hm|].
         intros Hb. destruct (HQ2' Hb) as (A & B & _).
         split; [|split; [exact B|]].
@@ -1347,7 +1354,7 @@ Section LoopsH2.
           exists hr', e. sproj. auto.
         * intros k oi Hk Hw. destruct (h_open_tracked _ _ A k oi Hk Hw) as (hr' & e & Y1 & Y2 & Y3).
           exists hr', e. sproj. auto.
-      + split; [exact HQ2|split; [exact Hnt2|exact HQ2']].
+      + split; [exact HQ2|split; [exact Hnt2|exact (conj HQ2' Hin2)]].
       + split; [exact I|split; [exact Hnt2|exact I]].
     - destruct (pump_write tp true s1) as [wr s2] eqn:EW.
       destruct Post1 as (HI1 & Hh1 & Hce1). destruct PostH1 as ((Pk1 & G1) & Pn1).
